@@ -8,7 +8,7 @@ from ..server import lifecycle_props as LP
 
 THEOREMS = ["C36_source_shape", "C36_release_after_timeout", "C36_never_released_early", "C36_early_release_window_witness",
             "C36_reload_on_send", "C36_send_to_active_run", "C36_reload_state_is_replay", "C36_no_release_while_sending",
-            "C36_refuted_dbos_never_released", "C36_dbos_release_resume_partial"]
+            "C36_refuted_dbos_never_released", "C36_dbos_release_resume_partial", "C36_dbos_release_not_abandoned"]
 LEAN_TARGETS = ["WfProps.C36"]
 EXPLANATION = (
     "Lean (same model M7 as C26): for every schedule — every release was decided on an idle_since at least idle_timeout old, idle_since holds the "
@@ -20,7 +20,15 @@ EXPLANATION = (
     "and on a quiescent state rewind_in_progress is the identity (C36_reload_state_is_replay, via C11); a loop is aborted / started only by the "
     "lock holder (C36_no_release_while_sending). DBOS stack: release/resume cycle proved given the lifecycle row (C36_dbos_release_resume_partial); "
     "the production code never inserts the row, so no DBOS run is ever released (C36_refuted_dbos_never_released; known finding, reproduced by "
-    "running the real DBOSIdleReleaseDecorator + SqliteRunLifecycleLock over a stand-in runtime and by re-extracting the call sites). "
+    "running the real DBOSIdleReleaseDecorator + SqliteRunLifecycleLock over a stand-in runtime and by re-extracting the call sites); with the row, "
+    "along every schedule without a process crash a release that has begun is carried through — the `releasing` row is held by a live releaser "
+    "whose TickIdleRelease / complete_release is enabled, whatever ticks the run consumes meanwhile (C36_dbos_release_not_abandoned; that the timer "
+    "task de-registers itself before it starts the release is part of C36_source_shape). DBOS half under latency (harness/server/dbos_gated.py): "
+    "virtual-time latency on every lifecycle-store call and on every delivery to the run, client sends placed in the windows of a release; every "
+    "observed protocol action is compared with the protocol machine of M7 (B) (row, incarnation, mailbox, consumed ticks, releaser / sender "
+    "positions, releaser task ended early), and the monitors: a committed begin_release is followed by TickIdleRelease and complete_release within "
+    "the case's own latencies, an idle undisturbed run is out of memory after idle_timeout + the longest release, a released run is marked idle, "
+    "the next send reloads exactly once and the run finishes with everything it consumed. "
     "Tie and search as C26 (same observation stream); C36's monitors: release timing against the stream's own idle announcements, release "
     "liveness (announced idle, undisturbed for idle_timeout => released exactly then, handler marked idle), reload exactly once, state after "
     "release / reload, lock sections, final result equals the run without idle release."
@@ -32,10 +40,17 @@ LEVEL_TEXT = ("proof (Lean 4) over the lifecycle model M7 (release after the tim
 ASSUMPTIONS = LP.COMMON_ASSUMPTIONS + [
     "C36_release_after_timeout(b) runs the pending release task from a state with the lock free and no send in between; fairness of the asyncio scheduler "
     "(the timer task eventually runs) is not modelled — the monitor checks on the real stack that the release happens at exactly announcement + idle_timeout",
+    "DBOS half under latency: what DBOS adds to the decorator is taken to be latency (and suspension of the calling task) on the lifecycle statements and on "
+    "deliveries; a process crash in the middle of a release (C26's crash timeout) is not injected; the protocol machine's `processed` is what the run has reduced, "
+    "including the reloading tick that _do_resume folds into the rebuilt state (which is NOT in the tick log: finding C36/dbos_second_reload_fails)",
     "'continues from where it stopped': the reducer state (C11) — context state store contents are persisted by the store itself (C19-C21), not modelled here; "
     "the monitor compares the final result with the uninterrupted run",
 ]
-TRUSTED_EXTRA = LP.TRUSTED_EXTRA
+TRUSTED_EXTRA = LP.TRUSTED_EXTRA + [
+    "harness/server/dbos_gated.py: the stand-in engine under DBOSIdleReleaseDecorator (BasicRuntime; ticks delivered by run id after a virtual-time latency, "
+    "as DBOS.send is; DBOS.retrieve_workflow_async / delete_workflow_async emulated by hooks), the latency wrapper around the real SqliteRunLifecycleLock, the "
+    "task bookkeeping that attributes lock calls to releasers / senders, the lifecycle row inserted by the harness",
+]
 
 WITNESSES = [
     ("premature_idle(F14)", IC.WITNESS_PREMATURE_IDLE, "C36/released_while_not_idle:premature_idle"),
@@ -82,4 +97,5 @@ def run(env: Env) -> Outcome:
     LP.run_inprocess(env, out, "C36", env.budget(24, 2400), WITNESSES)
     LP.run_row_corr(env, out, env.budget(150, 20000), "C36")
     _dbos_never_released(out)
+    LP.run_dbos_gated(env, out, "C36", env.budget(40, 1500))
     return out
